@@ -458,6 +458,8 @@ pub fn vary_transport(rng: &mut Rng, case: &mut Case) {
         case.handshake = random_handshake(&mut r).0;
     }
     case.via_run_on_stream = r.chance(1, 5);
+    // every eighth case travels over a TLS upgrade (its own handshake; not under Miri: native crypto)
+    case.over_tls = !cfg!(miri) && r.chance(1, 8) && case.tls.is_none() && case.fault.err_at.is_none() && case.fault.eof_after.is_none();
     if r.chance(1, 3) {
         let (input, _) = case.input();
         if input.len() < 100_000 {
